@@ -745,6 +745,57 @@ func c19Transports(c *mon.Ctx, r *gen.Rand) {
 			cl := fclient.NewClient(fclient.WithSkipVerify(true), fclient.WithWellKnownSRVLookups(false), fclient.WithKeepAlives(rr.Chance(0.5)), fclient.WithTimeout(20*time.Second))
 			var wg sync.WaitGroup
 			var trips atomic.Int64
+			// destinations nobody listens on (every request to them fails), and the reaper of the transport cache
+			// running all along - as its timer may, between any two steps of any request, also while the first
+			// request to a destination is still on its way or has failed
+			var dead []string
+			for i := 0; i < 2; i++ {
+				if l, err := net.Listen("tcp", "127.0.0.1:0"); err == nil {
+					dead = append(dead, l.Addr().String())
+					l.Close()
+				}
+			}
+			stopReaper := make(chan struct{})
+			var reaperDone sync.WaitGroup
+			var reaps atomic.Int64
+			reaperDone.Add(1)
+			go func() {
+				defer reaperDone.Done()
+				for {
+					select {
+					case <-stopReaper:
+						return
+					default:
+					}
+					site, msg, pan := mon.Guard(func() { cl.VerifReap() })
+					if pan {
+						c.Failf("transport:reaper-panics:"+site, "a pass of the transport reaper while requests are on their way panics (in its timer goroutine that ends the process): %s", msg)
+						return
+					}
+					reaps.Add(1)
+					time.Sleep(200 * time.Microsecond)
+				}
+			}()
+			for _, d := range dead {
+				wg.Add(1)
+				go func(d string) {
+					defer wg.Done()
+					for i := 0; i < 3; i++ {
+						req, _ := http.NewRequest("GET", "matrix://"+d+"/_matrix/test", nil)
+						ctx, cancel := context.WithTimeout(context.Background(), 5*time.Second)
+						var body struct{}
+						if err := cl.DoRequestAndParseResponse(ctx, req, &body); err == nil {
+							c.Failf("transport:answered-by-other-destination", "a request to %s, where nobody listens, was answered", d)
+						}
+						cancel()
+						// a pass of the reaper right after a failure, from this goroutine
+						if site, msg, pan := mon.Guard(func() { cl.VerifReap() }); pan {
+							c.Failf("transport:reaper-panics:"+site, "a pass of the transport reaper after a failed request panics: %s", msg)
+							return
+						}
+					}
+				}(d)
+			}
 			seeds := make([]*gen.Rand, k)
 			for g := range seeds {
 				seeds[g] = rr.Fork(fmt.Sprint("g", g))
@@ -781,17 +832,21 @@ func c19Transports(c *mon.Ctx, r *gen.Rand) {
 				}(g)
 			}
 			wg.Wait()
+			close(stopReaper)
+			reaperDone.Wait()
 			c.Count("transport_runs")
+			c.CountN("transport_reaper_passes_during_requests", reaps.Load())
 			c.CountN("transport_round_trips", trips.Load())
 			if k > nSrv {
 				c.Nontrivial(fmt.Sprintf("tr|%d|%d|%d", run, nSrv, k))
 			}
-			if n := cl.VerifTransportCount(); n > nSrv {
-				c.Failf("transport:more-transports-than-destinations", "%d cached transports for %d distinct destinations", n, nSrv)
+			if n := cl.VerifTransportCount(); n > nSrv+len(dead) {
+				c.Failf("transport:more-transports-than-destinations", "%d cached transports for %d distinct destinations", n, nSrv+len(dead))
 			}
 		})
 	}
 	c.Floor("transport_round_trips", 100)
+	c.Floor("transport_reaper_passes_during_requests", 100)
 }
 
 // ---- (4) shared event ----
